@@ -7,7 +7,7 @@ python3 - <<'PY'
 import json,re,subprocess
 head=subprocess.run(['git','-C','/repo','rev-parse','--short','HEAD'],capture_output=True,text=True).stdout.strip()
 res={}
-for l in open('/tmp/seed_recheck_all.out'):
+for l in open('/tmp/seed_recheck_all.out', errors='replace'):
     sid,_,out=l.rstrip('\n').partition('|')
     m=re.search(r'rc=(\d+)',out)
     if 'does not apply' in out: st='patch does not apply to HEAD (the code it sits in was rewritten by a later fix)'
